@@ -252,7 +252,17 @@ fn main() {
                                     let kind = *kinds.get(&n).unwrap_or_else(|| panic!("spec kind {n} unknown to the lexer"));
                                     (n, kind)
                                 }).collect();
-                                vec![lexis::render_tokens(&seq, &mut rng, true), lexis::render_tokens(&seq, &mut rng, false)]
+                                let mut v = vec![lexis::render_tokens(&seq, &mut rng, true), lexis::render_tokens(&seq, &mut rng, false)];
+                                // pairs: every spelling of the first kind glued to every spelling of the second (what two tokens
+                                // become when nothing separates them is the lexer's business - the text still has to come back)
+                                if seq.len() == 2 {
+                                    for a in lexis::lexemes(&seq[0].0, seq[0].1).iter() {
+                                        for b in lexis::lexemes(&seq[1].0, seq[1].1).iter() {
+                                            v.push(format!("{a}{b}"));
+                                        }
+                                    }
+                                }
+                                v
                             } else {
                                 vec![case["seq"].as_array().unwrap().iter().map(|c| lexis::chr(c.as_str().unwrap())).collect::<String>()]
                             };
